@@ -12,7 +12,7 @@ def tasks(tier):
 TRUSTED_BASE = TRUSTED_CORE
 ASSUMPTIONS = SCHED_ASSUMPTIONS
 NOT_COVERED = ["'simulation time then advances normally' is covered as far as C02/C05 go (safety); no liveness"]
-LEVEL_TEXT = 'The same-time loop guard in sim_process raises SimulationError naming the simulator IFF some sub-step tier has reached max_loop_iterations (exact condition at the raise site and as ghost assertion at BEGIN); sub-tiers are reset when the time tier advances (delay algebra); loops below the bound are never interrupted (the raise site is unreachable otherwise).'
+LEVEL_TEXT = 'The same-time loop guard in sim_process raises SimulationError naming the simulator IFF some sub-step tier has reached max_loop_iterations (exact condition at the raise site and as ghost assertion at BEGIN); sub-tiers are reset when the time tier advances (delay algebra); loops below the bound are never interrupted (the raise site is unreachable otherwise). scheduler.run passes the first failure on at once (no collecting of failures while the loop partners wait for ever).'
 DESIGN_REF = "DESIGN.md section 8 (C09)"
 LEVEL_NOTE = 'Proved for any number of simulators, any topology, any reply values and every interleaving, under the listed assumptions (evidence: assumptions, coverage.trusted_base). Trusted: pyvc encoder, the rely/guarantee meta-theorem, assumed contracts of asyncio/heapq, the time/delay algebra axioms (C08 provenance), static connection-table facts, z3/cvc5.'
 TECHNIQUE = 'contract-based deductive verification (AST->z3 VCs on the real functions, global invariant, rely/guarantee at awaits)'
